@@ -1,15 +1,20 @@
 import ExprModel.Drv.Arith
 /-
-The model driver: one request per line on stdin (an S-expression), one response per line on stdout.
-Core-only (no Mathlib), so it links as a `lean_exe`.
+The model driver: one request per line on stdin (an S-expression `(tag arg…)`), one response per line
+on stdout.  Core-only (no Mathlib, no proof modules), so it links as a `lean_exe` and keeps building
+when a proof breaks.  Each `ExprModel/Drv/*.lean` exports a handler table; add yours to `handlers`.
 -/
 open ExprModel
+
+def handlers : List (String × (List Sexp → Sexp)) :=
+  Drv.arithHandlers
 
 def dispatch (req : Sexp) : Sexp :=
   match req with
   | .list (.atom tag :: rest) =>
-    if tag == "arith" || tag == "neg" || tag == "combined" || tag == "toint" then Drv.handleArith (.atom tag :: rest)
-    else .list [.atom "unknown-stage", .atom tag]
+    match handlers.find? (fun h => h.1 == tag) with
+    | some (_, f) => f (.atom tag :: rest)
+    | none => .list [.atom "unknown-stage", .atom tag]
   | _ => .list [.atom "bad-request"]
 
 partial def loop (stdin : IO.FS.Stream) (stdout : IO.FS.Stream) : IO Unit := do
